@@ -50,7 +50,21 @@ SCEN = {
     "checkLevel": ("a.c", "int f(int x)\n{\n  return x / 0;\n}\n", {}, [], ["--check-level=exhaustive"]),
     "force": ("a.c", "".join("#ifdef C%d\nint f%d(int x) { return x / 0; }\n#endif\n" % (i, i) for i in range(14)) + "int h(void) { return 0; }\n", {}, [], ["--force"]),
 }
-FIELD_OF = {"inlineSuppr": "suppressions", "inlineSupprMisspelt": "suppressions", "style": "style", "warning": "warning", "performance": "performance", "portability": "portability", "information": "information"}
+# hidden defaults: the option's default equals an explicit value, but "was it assigned" changes the behaviour
+MANYCFG = "".join("#ifdef C%d\nint f%d(int x) { return x / 0; }\n#endif\n" % (i, i) for i in range(15)) + "int h(void) { return 0; }\n"
+INFO = ["--enable=information"]
+SCEN.update({
+    "hidden-maxconfigs-default-vs-12": ("a.c", MANYCFG, {}, INFO, INFO + ["--max-configs=12"]),
+    "hidden-force-vs-huge-maxconfigs": ("a.c", MANYCFG, {}, INFO + ["--force"], INFO + ["--max-configs=2147483647"]),
+    "hidden-define-vs-define-maxconfigs1": ("a.c", MANYCFG, {}, INFO + ["-DC1"], INFO + ["-DC1", "--max-configs=1"]),
+    "hidden-maxconfigs-1-vs-define": ("a.c", MANYCFG, {}, INFO + ["--max-configs=1"], INFO + ["-DC1"]),
+    "hidden-checklevel-default-vs-normal": ("a.c", MANYCFG, {}, INFO, INFO + ["--check-level=normal"]),
+    "hidden-platform-default-vs-native": ("a.c", "int f(void)\n{\n  return 100 / (int)(sizeof(long) - 8);\n}\n", {}, INFO, INFO + ["--platform=native"]),
+})
+FIELD_OF = {"hidden-maxconfigs-default-vs-12": "maxConfigs", "hidden-force-vs-huge-maxconfigs": "force",
+            "hidden-define-vs-define-maxconfigs1": "maxConfigs", "hidden-maxconfigs-1-vs-define": "userDefines",
+            "hidden-checklevel-default-vs-normal": "checkLevel", "hidden-platform-default-vs-native": "platform",
+            "inlineSuppr": "suppressions", "inlineSupprMisspelt": "suppressions", "style": "style", "warning": "warning", "performance": "performance", "portability": "portability", "information": "information"}
 
 
 def check(run, replay):
@@ -130,7 +144,7 @@ def check(run, replay):
     mcases = []
     for o, r in zip(rends, impl):
         if r and r[0] == "!exc":
-            mcases.append(["toolinfo"] + [""] * 24)
+            mcases.append(["toolinfo"] + [""] * 25)
             continue
         oo = dict(o)
         if not oo["addonName"]:
@@ -172,7 +186,7 @@ def option_histories(run, missing, quick):
         if quick and member in ("performance", "checkLevel", "force", "portability"):
             continue
         for jobs in ((1,) if quick else (1, 2)):
-            for first, second in (((A, B),) if quick and missing is not None and field not in missing and not member.startswith("inlineSuppr") else ((A, B), (B, A))):
+            for first, second in (((A, B),) if quick and missing is not None and field not in missing and not member.startswith(("inlineSuppr", "hidden-")) else ((A, B), (B, A))):
                 sc = C.Scratch("c19")
                 try:
                     sc.write(fname, src)
